@@ -200,6 +200,24 @@ def fitted_data_problems(sch, spec, stats):
         bad.append(("fitted_data_size", len(fitted), len(full), max_size))
     if len(full) <= max_size and fitted != full:
         bad.append(("fitted_data_differs_without_subsampling", sorted(set(full) ^ set(fitted))))
+    # third observation point, independent-GP-per-level surrogate (HyperTune / model="gp_independent"): the posterior
+    # state of level r must be conditioned on every observation and every fantasised pending evaluation at level r
+    pstates = getattr(pred, "posterior_states", None)
+    if pstates and hasattr(pstates[0], "state"):
+        from collections import Counter
+        n_obs = Counter(r for (_, r) in fitted)
+        n_pend = Counter(int(p.resource) for p in fstate.pending_evaluations)
+        stats["per_level_checks"] = stats.get("per_level_checks", 0) + 1
+        model_levels = set(sch.rung_levels) | {sch.max_t}      # the independent model has one GP per rung level (and max_t)
+        for level in sorted((set(n_obs) | set(n_pend)) & model_levels):
+            try:
+                num_data = int(pstates[0].state(level).num_data)
+            except KeyError:
+                num_data = 0
+            if n_obs[level] + n_pend[level] == 1:
+                stats["levels_with_single_datapoint"] = stats.get("levels_with_single_datapoint", 0) + 1
+            if num_data != n_obs[level] + n_pend[level]:
+                bad.append(("per_level_surrogate_data_differs", level, num_data, n_obs[level], n_pend[level]))
     # rows handed to the surrogate
     configs, values = fstate.observed_data_for_metric()
     base_keys = set(next(iter(fstate.config_for_trial.values())).keys()) if fstate.config_for_trial else set()
@@ -821,6 +839,12 @@ def run(ctx, replay=None):
                       max_size=rng.choice([3, 4, 6, None]), allow_dup=dup, tiny_space=rng.choice([2, 3]) if dup else None,
                       num_init_random=2, nops=rng.randint(15, 35), p_fail=rng.choice([0.0, 0.05]), brackets=1,
                       rungs=rng.choice([0, 1, 5]), workers=rng.randint(1, 3))
+            todo.append((sp, None))
+        for _ in range(ctx.n(8, 100)):       # HyperTune: independent GP per rung level; data per level
+            sp = gen_spec(rng)
+            sp.update(searcher="hypertune", type=rng.choice(["stopping", "promotion"]), check_fit=True, searcher_data="rungs",
+                      max_size=None, allow_dup=False, tiny_space=None, num_init_random=2, nops=rng.randint(12, 30),
+                      p_fail=0.0, brackets=1, rungs=rng.choice([0, 1, 5]), workers=rng.randint(1, 3), map_reward=None)
             todo.append((sp, None))
         for _ in range(ctx.n(24, 300)):      # DyHPO (type="dyhpo", searcher="dyhpo"): promotion-type data path
             sp = gen_spec(rng)
